@@ -618,6 +618,19 @@ pub fn read_cases() -> Vec<ReadCase> {
         expect: vec![format!("HEADERS sid=1 eos=true {}", small_sum), format!("PUSH_PROMISE sid=1 promised=2 {}", small_sum), format!("DATA sid=1 eos=true {}", dsum(1, 5))],
         max_recv: 16384,
     });
+    // Pad Length 0 (legal: the Pad Length octet alone), 1 and 255, for DATA and HEADERS
+    v.push(ReadCase {
+        name: "pad-lengths".into(),
+        wire: cat(&[
+            wf::headers_full(1, &block_small, false, true, Some(0), None),
+            wf::data_padded(1, &d5, 0, false),
+            wf::data_padded(1, &d5, 1, false),
+            wf::data_padded(1, &d5, 255, false),
+            wf::data_padded(1, &[], 0, true),
+        ]),
+        expect: vec![format!("HEADERS sid=1 eos=false {}", small_sum), format!("DATA sid=1 eos=false {}", dsum(1, 5)), format!("DATA sid=1 eos=false {}", dsum(1, 5)), format!("DATA sid=1 eos=false {}", dsum(1, 5)), format!("DATA sid=1 eos=true {}", dsum(1, 0))],
+        max_recv: 16384,
+    });
     v.push(ReadCase {
         name: "max-size-data".into(),
         wire: cat(&[wf::data(1, &payload_bytes(1, 16384), false), wf::data(1, &[], true)]),
